@@ -548,6 +548,16 @@ func genJar(r *hx.Rng, kind string) (hs hashSpec, keyKind int, alias string, fla
 		m := some()
 		d := []byte("shadow copy")
 		post = "add:" + hx.Hex([]byte(m.name)) + ":" + hx.Hex(d) + ":" + hx.Hex([]byte(b64(hs.h, d)))
+	case "mfadd":
+		// a section for a new member appended to the signed manifest, with the member's correct digest: only the
+		// whole-manifest digest of the signature file (or, with sections-only, nothing) stands against it
+		nm := []string{"evil/Appended.class", "zz-appended.txt", "com/example/Extra.class"}[r.Intn(3)]
+		if used[nm] {
+			nm += "2"
+		}
+		d := []byte("appended after signing")
+		sec := "Name: " + nm + "\r\n" + hs.name + "-Digest: " + b64(hs.h, d) + "\r\n\r\n"
+		post = "mfadd:" + hx.Hex([]byte(nm)) + ":" + hx.Hex(d) + ":" + hx.Hex([]byte(b64(hs.h, d))) + ":" + hx.Hex([]byte(sec))
 	case "resign":
 		post = "resign"
 	}
@@ -639,7 +649,7 @@ func Gen(w *bufio.Writer, seed uint64, tier string, prop string) {
 		codec(120, "dump", "sf")
 		jars(70, "plain", "plain", "plain", "wrongdigest", "nomanifest", "lowercase")
 	case "C02":
-		jars(90, "mod", "del", "unlisted", "dup", "mod")
+		jars(110, "mod", "del", "unlisted", "dup", "mod", "mfadd")
 		codec(40, "sf")
 	case "C03":
 		keeps()
@@ -877,6 +887,21 @@ func applyPost(ms []member, post string) ([]member, bool) {
 			}
 		}
 		return out, true
+	case "mfadd":
+		if len(p) != 5 {
+			return nil, false
+		}
+		b, ok := unhexAll(p[1], p[2], p[4])
+		if !ok {
+			return nil, false
+		}
+		out := append([]member{}, ms...)
+		for i := range out {
+			if out[i].name == "META-INF/MANIFEST.MF" {
+				out[i].data = append(append([]byte{}, out[i].data...), b[2]...)
+			}
+		}
+		return append(out, member{string(b[0]), b[1]}), true
 	case "del":
 		if len(p) != 2 {
 			return nil, false
@@ -987,7 +1012,7 @@ func signx(f []string) string {
 	if !ok {
 		return "bad-op"
 	}
-	if len(out2) != len(out) || strings.HasPrefix(f[9], "mod") {
+	if len(out2) != len(out) || strings.HasPrefix(f[9], "mod") || strings.HasPrefix(f[9], "mfadd") {
 		if err := writeZip(path, out2); err != nil {
 			return "bad-op zip2:" + strings.ReplaceAll(err.Error(), " ", "_")
 		}
